@@ -44,6 +44,9 @@ type c11TxCase struct {
 	// ErrKind: which error value the body returns / panics with ("" = the harness' own error);
 	// sentinels the library itself treats specially must come back like any other error
 	ErrKind   string `json:"err,omitempty"`
+	// TermErrKind: which error value the injected Commit / Rollback fault returns ("" = the
+	// harness' own error); a failed Commit must surface whatever its value
+	TermErrKind string `json:"term_err,omitempty"`
 	PrepFault bool   `json:"prep_fault,omitempty"` // the fault of statement StmtFault (a prepared statement) hits Prepare, not the execution
 	IterFault     bool   `json:"iter_fault,omitempty"` // the fault of statement StmtFault (a single-row query) hits the fetch of its first row, not the call
 	CommitFault   bool   `json:"commit_fault,omitempty"`
@@ -56,6 +59,7 @@ type c11TxObs struct {
 	bodyKind   string // "nil" "error" "panic" ("" = body never finished/ran)
 	bodyErr    error
 	bodyPanic  error // the error value the body panicked with, if it was one
+	termFault  [2]error // the values armed for a Commit / Rollback fault (nil = none armed)
 	res        error
 	panicked   bool
 	pv         any
@@ -77,6 +81,11 @@ var c11AsyncWaitSpent atomic.Bool
 
 var (
 	c11ErrBody = errors.New("c11: body error")
+
+	c11ErrCommitFault   = errors.New("c11 fault commit")
+	c11ErrRollbackFault = errors.New("c11 fault rollback")
+	c11TermErrKinds     = []string{"sql.ErrTxDone", "sql.ErrConnDone", "driver.ErrBadConn", "context.Canceled", "context.DeadlineExceeded", "sql.ErrNoRows", "io.EOF", "wrapped(sql.ErrTxDone)", "wrapped(driver.ErrBadConn)"}
+	c11WrappedBadConn   = fmt.Errorf("c11: network: %w", driver.ErrBadConn)
 
 	c11ErrKinds    = []string{"sql.ErrTxDone", "sql.ErrNoRows", "sql.ErrConnDone", "context.Canceled", "context.DeadlineExceeded", "breaker.ErrServiceUnavailable", "driver.ErrBadConn", "io.EOF", "wrapped(sql.ErrTxDone)", "wrapped(sql.ErrNoRows)", "wrapped(context.Canceled)"}
 	c11ErrKindVals = map[string]error{
@@ -203,6 +212,12 @@ func c11RunTxWith(c c11TxCase, rec *c11Rec, call func(context.Context, func(cont
 	}
 	defer cancel()
 	o.ctxDoneBefore = cctx.Err() != nil
+	if c.CommitFault {
+		o.termFault[0] = c11TermErr(c.TermErrKind, "commit")
+	}
+	if c.RollbackFault {
+		o.termFault[1] = c11TermErr(c.TermErrKind, "rollback")
+	}
 	body := func(ctx context.Context, s sqlx.Session) (err error) {
 		o.bodyCalls++
 		o.bodyKind, o.bodyErr = "panic", nil // overwritten on every normal return
@@ -351,7 +366,8 @@ func c11JudgeTx(m *vk.M, desc string, o c11TxObs) (class string, violated bool) 
 	// sql.ErrTxDone in the result, although neither the body nor a done context produced it, means
 	// the library called Commit / Rollback on a transaction it had already ended: the transaction
 	// was terminated twice at the *sql.Tx level (database/sql forwards only the first to the driver)
-	if !o.ctxDone && !o.panicked && errors.Is(o.res, sql.ErrTxDone) && !errors.Is(o.bodyErr, sql.ErrTxDone) && !errors.Is(o.bodyPanic, sql.ErrTxDone) {
+	if !o.ctxDone && !o.panicked && errors.Is(o.res, sql.ErrTxDone) && !errors.Is(o.bodyErr, sql.ErrTxDone) && !errors.Is(o.bodyPanic, sql.ErrTxDone) &&
+		!(commitFailed == 1 && errors.Is(o.termFault[0], sql.ErrTxDone)) && !(rollbackFailed == 1 && errors.Is(o.termFault[1], sql.ErrTxDone)) {
 		return v("C11:tx:"+o.bodyKind+"-body:terminated-twice", "the result wraps sql.ErrTxDone (%d Commit / %d Rollback reached the driver): a second Commit/Rollback was issued on the finished transaction", commits, rollbacks)
 	}
 	switch o.bodyKind {
@@ -371,7 +387,9 @@ func c11JudgeTx(m *vk.M, desc string, o c11TxObs) (class string, violated bool) 
 			return v("C11:tx:nil-body:commit-twice", "body returned nil and %d Commits reached the driver", commits)
 		case commitFailed == 1 && o.res == nil:
 			return v("C11:tx:nil-body:commit-error-lost", "Commit failed but Transact returned nil")
-		case commitFailed == 1 && !c11IsMsg(o.res, "c11 fault commit"):
+		case commitFailed == 1 && o.termFault[0] != nil && !errors.Is(o.res, o.termFault[0]):
+			return v("C11:tx:nil-body:commit-error-replaced", "Commit failed with %v but Transact returned a different error", o.termFault[0])
+		case commitFailed == 1 && o.termFault[0] == nil && !c11IsMsg(o.res, "c11 fault commit"):
 			return v("C11:tx:nil-body:commit-error-replaced", "Commit failed but Transact returned a different error")
 		case commitFailed == 0 && o.res != nil:
 			return v("C11:tx:nil-body:spurious-error", "body returned nil, Commit succeeded, but Transact returned an error")
@@ -427,6 +445,20 @@ func c11JudgeTx(m *vk.M, desc string, o c11TxObs) (class string, violated bool) 
 	return v("C11:tx:body-calls", "body outcome not recorded")
 }
 
+// c11TermErr is the error value an injected Commit / Rollback fault returns.
+func c11TermErr(kind, op string) error {
+	switch kind {
+	case "":
+		if op == "commit" {
+			return c11ErrCommitFault
+		}
+		return c11ErrRollbackFault
+	case "wrapped(driver.ErrBadConn)":
+		return c11WrappedBadConn
+	}
+	return c11ErrKindVals[kind]
+}
+
 func c11IsMsg(err error, prefix string) bool {
 	for e := err; e != nil; e = errors.Unwrap(e) {
 		if len(e.Error()) >= len(prefix) && e.Error()[:len(prefix)] == prefix {
@@ -454,10 +486,10 @@ func c11ArmFaults(rec *c11Rec, c c11TxCase, base map[string]int) {
 		rec.fault("stmt", base["stmt"]+c.StmtFault, fmt.Errorf("c11 fault stmt#%d", c.StmtFault))
 	}
 	if c.CommitFault {
-		rec.fault("commit", base["commit"], errors.New("c11 fault commit"))
+		rec.fault("commit", base["commit"], c11TermErr(c.TermErrKind, "commit"))
 	}
 	if c.RollbackFault {
-		rec.fault("rollback", base["rollback"], errors.New("c11 fault rollback"))
+		rec.fault("rollback", base["rollback"], c11TermErr(c.TermErrKind, "rollback"))
 	}
 }
 
@@ -544,6 +576,22 @@ func c11TxTable() []c11TxCase {
 			}
 		}
 	}
+	// Commit / Rollback faults whose value is one the library, database/sql or the breaker treat specially
+	for ai, api := range apis {
+		for n := 0; n <= 1; n++ {
+			for _, oc := range []string{"nil", "error", "panic-string"} {
+				k0 := 0
+				if oc == "nil" {
+					k0 = n
+				}
+				for k := k0; k <= n; k++ {
+					for _, kind := range c11TermErrKinds {
+						out = append(out, c11TxCase{API: api, N: n, Outcome: oc, K: k, Kinds: c11Kinds(n, ai+1), StmtFault: -1, CommitFault: true, RollbackFault: true, TermErrKind: kind})
+					}
+				}
+			}
+		}
+	}
 	// context dimension (TransactCtx entry points, bodies of n <= 2 statements)
 	base := len(out)
 	for _, mode := range []string{"cancelled-before", "cancelled-by-body", "deadline-in-body"} {
@@ -564,7 +612,7 @@ func c11TxTable() []c11TxCase {
 // first-row fetch of a single-row query j < k with reaction propagate/notfound-continue}
 // x Commit fault x Rollback fault x the four public entry points.
 func TestVerifC11TxTable(t *testing.T) {
-	m := vk.New(t, "C11", "complete table: entry point {sqlx,sqlc}.{Transact,TransactCtx} x body of n<=3 statements (exec/query/prepared) x outcome {nil,error,panic(error),panic(string),runtime panic} at every position k<=n (for n<=1 the error / panic value also drawn from sql.ErrTxDone, sql.ErrNoRows, sql.ErrConnDone, context.Canceled, context.DeadlineExceeded, breaker.ErrServiceUnavailable, driver.ErrBadConn, io.EOF and %w-wrapped variants) x driver fault {none, Begin, statement j<k with body reaction propagate|swallow|panic, first-row fetch (driver.Rows.Next) of single-row query j<k with body reaction propagate|continue-on-ErrNotFound} x Commit fault x Rollback fault; for TransactCtx and n<=2 additionally x context {cancelled before the call, cancelled by the body just before it returns/panics, 1 ms deadline that expires during the body}; on a recording database/sql driver; oracle per transaction: nil <=> one successful Commit and no Rollback, otherwise one Rollback and no Commit (one failed Commit returned; neither if Begin failed), body error returned unless Rollback failed too, panic never nil, a failed first-row fetch is reported to the body as an error that is not ErrNotFound; non-trivial = a transaction reached the driver")
+	m := vk.New(t, "C11", "complete table: entry point {sqlx,sqlc}.{Transact,TransactCtx} x body of n<=3 statements (exec/query/prepared) x outcome {nil,error,panic(error),panic(string),runtime panic} at every position k<=n (for n<=1 the error / panic value also drawn from sql.ErrTxDone, sql.ErrNoRows, sql.ErrConnDone, context.Canceled, context.DeadlineExceeded, breaker.ErrServiceUnavailable, driver.ErrBadConn, io.EOF and %w-wrapped variants) x driver fault {none, Begin, statement j<k with body reaction propagate|swallow|panic, first-row fetch (driver.Rows.Next) of single-row query j<k with body reaction propagate|continue-on-ErrNotFound} x Commit fault x Rollback fault (for n<=1 the fault value also drawn from sql.ErrTxDone, sql.ErrConnDone, driver.ErrBadConn, context.Canceled, context.DeadlineExceeded, sql.ErrNoRows, io.EOF and %w-wrapped variants); for TransactCtx and n<=2 additionally x context {cancelled before the call, cancelled by the body just before it returns/panics, 1 ms deadline that expires during the body}; on a recording database/sql driver; oracle per transaction: nil <=> one successful Commit and no Rollback, otherwise one Rollback and no Commit (one failed Commit returned; neither if Begin failed), body error returned unless Rollback failed too, panic never nil, a failed first-row fetch is reported to the body as an error that is not ErrNotFound; non-trivial = a transaction reached the driver")
 	defer m.Done()
 	table := c11TxTable()
 	classes := map[string]int64{}
@@ -736,6 +784,9 @@ func TestVerifC11TxHistories(t *testing.T) {
 			}
 			if r.Intn(3) == 0 {
 				c.ErrKind = c11ErrKinds[r.Intn(len(c11ErrKinds))]
+			}
+			if r.Intn(3) == 0 {
+				c.TermErrKind = c11TermErrKinds[r.Intn(len(c11TermErrKinds))]
 			}
 			c.CommitFault = r.Intn(4) == 0
 			c.RollbackFault = r.Intn(4) == 0
